@@ -70,6 +70,10 @@ type Run struct {
 	root     string
 }
 
+// noYieldMarker: see sched.NoYieldMarker (a thread of the code under test spins
+// for ever; replaying the case would leave another one spinning).
+const noYieldMarker = "without reaching a scheduling point"
+
 const (
 	maxKeys  = 40
 	perClass = 3
@@ -332,7 +336,7 @@ func (r *Run) Finish() {
 	// 5x confirmation of each unlisted violation through the replayer.
 	var confirmed []V
 	for _, v := range unlisted {
-		if r.Replayer != nil && !v.NoConfirm && !r.skipConfirm {
+		if r.Replayer != nil && !v.NoConfirm && !r.skipConfirm && !strings.Contains(v.What, noYieldMarker) {
 			raw, err := json.Marshal(v.Case)
 			if err != nil {
 				Harness("marshal case: %v", err)
